@@ -38,7 +38,7 @@ TECHNIQUE = ('bounded exhaustive enumeration of item sequences x statement shape
              'linefeed option on the real Files/TextFile/InputMixin code through BASIC statements, against '
              'a list model and the host file')
 RULE = ('all sequences of length <= k over the item alphabet, times all cuts/shapes/options; a case class '
-        'is (leg, multiset of item kinds, number of sessions, statement shape, option); non-trivial = any '
+        'is (leg, item kind, number of sessions, statement shape, option); non-trivial = any '
         'case with a string containing a separator/blank/control byte, a float, or more than one session')
 ASSUMPTIONS = [
     'strings are set with Session.set_variable and read with Session.get_variable (public API)',
@@ -349,8 +349,8 @@ def work_write_input(shard):
             run_write_input(part, w, items, shape, cuts, case)
             part.n += 1
             part.traces += 1
-            part.classes.add('%s|%s|%d|%s' % ('+'.join(sorted(set(_kind(i) for i in items))) or 'none',
-                                               shape, len(cuts), 'sl' if sl else 'nl'))
+            for kd in (set(_kind(i) for i in items) or {'none'}):
+                part.classes.add('%s|%s|%d|%s' % (kd, shape, len(cuts), 'sl' if sl else 'nl'))
         part.sample({'items': [repr(ITEMS[i][-1][:12]) for i in cases[0][0]], 'shape': cases[0][1],
                      'cuts': list(cases[0][2]), 'sl': sl})
     finally:
@@ -481,10 +481,10 @@ def work_print_line(shard):
             run_print_line(part, w, lines, cuts, case)
             part.n += 1
             part.traces += 1
-            part.classes.add('L|%s|%d|%s' % ('+'.join(sorted(set(
-                'e' if not l else ('255' if len(l) == 255 else ('254' if len(l) == 254 else
-                                                               ('q' if b'"' in l else 'p'))) for l in lines))) or 'none',
-                len(cuts), 'sl' if sl else 'nl'))
+            for kd in (set('e' if not l else ('255' if len(l) == 255 else ('254' if len(l) == 254 else
+                                                                           ('q' if b'"' in l else 'p')))
+                           for l in lines) or {'none'}):
+                part.classes.add('L|%s|%d|%s' % (kd, len(cuts), 'sl' if sl else 'nl'))
         part.sample({'lines': list(cases[0][0]), 'cuts': list(cases[0][1]), 'sl': sl})
     finally:
         w.done()
